@@ -179,7 +179,10 @@ func genC07(tier string, seed uint64, idx int) *simkit.Plan {
 		case 4:
 			p.Add(simkit.St("toidx", rng.Uint64()))
 		case 5:
-			if fault {
+			if fault && rng.Chance(1, 3) {
+				// the journal (index file) cannot be written: the handle is read-only, as volume loading opens it for volumes without write access
+				p.Add(simkit.St("delfail", rng.Uint64(), "pi", pick()))
+			} else if fault {
 				p.Add(simkit.St("crash", rng.Uint64(), "pi", pick(), "phase", rng.Intn(4), "torn", rng.Range(1, 7)))
 			} else {
 				p.Add(simkit.St("del", rng.Uint64(), "pi", pick(), "mode", mode()))
@@ -835,6 +838,7 @@ type sdxRun struct {
 	idxWant   []byte // the index file the model demands: the original plus one tombstone per effective delete
 	nm        *storage.SortedFileNeedleMap
 	delOff    types.Offset
+	roIdx     bool // open the index file read-only (journal appends fail)
 }
 
 func execSdx(r *simkit.Run, v *vol) {
@@ -875,6 +879,10 @@ func execSdx(r *simkit.Run, v *vol) {
 		case "crash":
 			if r.Res.FaultConfig {
 				x.del(s, true)
+			}
+		case "delfail":
+			if r.Res.FaultConfig {
+				x.delJournalFails(s)
 			}
 		case "lookup", "toidx":
 			x.verifyAll("", "sorted-needle-map-lookup")
@@ -918,7 +926,11 @@ func (x *sdxRun) open(fresh bool) bool {
 	}
 	os.Chtimes(x.base+".idx", tIdx, tIdx)
 	os.Chtimes(x.base+".sdx", tSdx, tSdx)
-	f, err := os.OpenFile(x.base+".idx", os.O_RDWR, 0644)
+	flag := os.O_RDWR
+	if x.roIdx {
+		flag = os.O_RDONLY
+	}
+	f, err := os.OpenFile(x.base+".idx", flag, 0644)
 	if err != nil {
 		x.r.HarnessError("open idx: %v", scrub(err))
 		return false
@@ -1042,6 +1054,49 @@ func (x *sdxRun) verifyAll(ctxClass, what string) bool {
 		}
 	}
 	return true
+}
+
+// delJournalFails deletes a live needle while the index file (the journal of a
+// sorted-index volume) cannot be written. The delete must report the failure
+// and must not have taken effect in part: the needle still reads live and
+// neither file changed.
+func (x *sdxRun) delJournalFails(s *simkit.Step) {
+	r := x.r
+	key, rank := x.keyOf(s)
+	if rank < 0 || x.m.deleted[key] {
+		return
+	}
+	x.nm.Close()
+	x.roIdx = true
+	ok := x.open(true)
+	x.roIdx = false
+	if !ok {
+		return
+	}
+	sdx0, _ := os.ReadFile(x.base + ".sdx")
+	idx0, _ := os.ReadFile(x.base + ".idx")
+	err := x.nm.Delete(types.Uint64ToNeedleId(key), x.delOff)
+	r.NonTrivial()
+	r.Fault("journal-append-fails")
+	r.Abs("del:journal-append-fails")
+	r.Log("sdx del key=%d rank=%d with a read-only index handle: err=%v", key, rank, scrub(err))
+	sdx1, _ := os.ReadFile(x.base + ".sdx")
+	idx1, _ := os.ReadFile(x.base + ".idx")
+	what := "sorted-needle-map-delete/journal-append-failed"
+	switch nv, found := x.nm.Get(types.Uint64ToNeedleId(key)); {
+	case err == nil && bytes.Equal(idx0, idx1):
+		r.Violate("delete-not-journalled", what, "Delete(%d) reported success although the index file could not be written and holds no tombstone", key)
+	case err != nil && (!found || nv.Size.IsDeleted() || !bytes.Equal(sdx0, sdx1)):
+		r.Violate("failed-delete-took-partial-effect", what, "Delete(%d) failed (%v) without a journal record, yet the needle reads deleted=%v and the sorted file changed=%v", key, scrub(err), !found || nv.Size.IsDeleted(), !bytes.Equal(sdx0, sdx1))
+	}
+	if r.Violated() {
+		return
+	}
+	x.nm.Close()
+	if !x.open(true) {
+		return
+	}
+	x.verifyAll("", what)
 }
 
 // del deletes through SortedFileNeedleMap.Delete. With crash set the machine
